@@ -256,8 +256,16 @@ fn gen_program(rng: &mut Rng, feats: &Features, allow_diverger: bool) -> (Vec<Cl
     // --- layer 0: fact tables ---
     let nf = rng.range(1, 3) as usize;
     for i in 0..nf {
-        let arity = *rng.pick(&[0usize, 1, 1, 1, 2, 2, 3]);
-        let name = format!("f{}", i);
+        let mut arity = *rng.pick(&[0usize, 1, 1, 1, 2, 2, 3]);
+        let mut name = format!("f{}", i);
+        // now and then two predicates share a functor and differ in arity only (f0/1 and f0/2)
+        if i > 0 && rng.chance(1, 4) {
+            let first = ctx.preds[0].clone();
+            if ctx.preds.iter().all(|p| p.name != first.name || p.arity != (first.arity + 1) % 4) {
+                name = first.name.clone();
+                arity = (first.arity + 1) % 4;
+            }
+        }
         let n = if feats.empty_pred && rng.chance(1, 4) { 0 } else { rng.range(1, 6) as usize };
         for _ in 0..n {
             let args = (0..arity)
@@ -419,12 +427,15 @@ fn gen_program(rng: &mut Rng, feats: &Features, allow_diverger: bool) -> (Vec<Cl
         } else {
             (0..p.arity)
                 .map(|_| {
-                    let r = rng.below(10);
-                    if r < 7 {
+                    let r = rng.below(20);
+                    if r == 19 && vars > 0 && p.callable {
+                        // the same variable twice in the query (fact tables and rule layers only)
+                        Term::Var("$P0".to_string())
+                    } else if r < 14 {
                         let t = Term::Var(format!("$P{}", vars));
                         vars += 1;
                         t
-                    } else if p.class == QueryClass::Finite && p.name != "gen" && p.name != "natk" {
+                    } else if r < 18 && p.class == QueryClass::Finite && p.name != "gen" && p.name != "natk" {
                         constant(rng)
                     } else {
                         let t = Term::Var(format!("$P{}", vars));
